@@ -1,6 +1,6 @@
 From Coq Require Import Extraction ExtrOcamlBasic ZArith List.
-From MV Require Import Base.Chain Tri.EarClipDefs Tri.TriCheckDefs.
+From MV Require Import Base.Chain Tri.EarClipDefs Tri.TriCheckDefs Tri.HalfedgePairDefs.
 Extraction Language OCaml.
 Extraction "../build/ml/c10_model.ml" triangulate triangulateConvex tri_check tri_check_all
   het_halfedges het_triangles chain_eqb boundaries contours nlive
-  initialize reset init_ok rings_closed.
+  initialize reset init_ok rings_closed addHalfedges.
